@@ -9,13 +9,13 @@ from ..ctx import Raised
 
 PROP = 'C20'
 RULE = ('cases = LinearLayerTT(size_in,size_out,rank,dtype,initializer) with 1..4 modes, rectangular sizes 1..5, rank profiles one/uniform/distinct/random, '
-        'f32/f64, initializers He/Glo, bias overwritten with random values, inputs with 0..3 leading batch dims (size-1 batch dims included). Oracle: forward(x) '
+        'f32/f64, initializers He/Glo, bias overwritten with random values, inputs with 0..3 leading batch dims (size-1 batch dims included; a few batches of 4100 .. 65537 samples). Oracle: forward(x) '
         'vs tensordot of the harness-contracted dense operator plus bias (1e3*u*S_rep); named_parameters() holds every core and the bias, all requires_grad; '
         'gradients of a random scalar loss w.r.t. every parameter vs autograd of the dense map; in a third of the cases an untracked (no_grad) forward precedes the tracked one; in half of the cases a history follows: eval(), forward, parameters overwritten in place, forward again (must reflect the new parameters), gradients in eval mode; an invalid initializer must raise. '
         'distinct = (sizes, rank, batch shape, dtype, initializer); non-trivial = non-zero reference output.')
 ASSUMPTIONS = ['cores are re-set to int-valued tensors in half of the cases so that forward can be compared bit-exactly in those']
 REQUIRED_REACH = ['nn:LinearLayerTT.__init__', 'nn:LinearLayerTT.forward', '_extras:randn']
-REQUIRED_COUNTS = {'history:eval-update-forward': 5, 'history:no_grad-forward-first': 5, 'batchdims:0': 1, 'batchdims:1': 1, 'batchdims:2': 1, 'batchdims:3': 1, 'init:He': 1, 'init:Glo': 1, 'grad_checks': 10, 'invalid-initializer': 1}
+REQUIRED_COUNTS = {'batch>=4096-samples': 4, 'history:eval-update-forward': 5, 'history:no_grad-forward-first': 5, 'batchdims:0': 1, 'batchdims:1': 1, 'batchdims:2': 1, 'batchdims:3': 1, 'init:He': 1, 'init:Glo': 1, 'grad_checks': 10, 'invalid-initializer': 1}
 LINE_FUNCS = ['LinearLayerTT.forward', 'LinearLayerTT.__init__']
 
 
@@ -29,6 +29,12 @@ def cases(tier, seed):
         cs.append({'gen': 'layer', 'size_in': [rng.choice(pool) for _ in range(d)], 'size_out': [rng.choice(pool) for _ in range(d)],
                    'rank': gens.rank_profile(rng, d, rng.choice(['one', 'uniform', 'distinct', 'rand']), 3), 'dtype': ['f32', 'f64'][i % 2],
                    'init': ['He', 'Glo'][(i // 2) % 2], 'batch': [rng.choice((1, 2, 3)) for _ in range(i % 4)], 'intvals': i % 3 != 0})
+    # large batches (thousands of samples): size-dependent evaluation strategies must not change values or derivatives
+    for i in range(8 if tier == 'quick' else 60):
+        d = rng.randint(1, 3)
+        cs.append({'gen': 'layer', 'size_in': [rng.choice((1, 2, 3)) for _ in range(d)], 'size_out': [rng.choice((1, 2, 3)) for _ in range(d)],
+                   'rank': gens.rank_profile(rng, d, 'rand', 3), 'dtype': ['f32', 'f64'][i % 2], 'init': ['He', 'Glo'][(i // 2) % 2],
+                   'batch': [[4100], [70, 60], [17, 16, 16], [9001], [2, 3000], [1, 5000, 1], [65537], [300, 33]][i % 8], 'intvals': i % 3 != 0})
     for i in range(4):
         cs.append({'gen': 'badinit', 'init': ['he', 'Xavier', '', None][i]})
     return cs
@@ -55,6 +61,8 @@ def run_layer(case, ctx, g):
     d = len(sin)
     what = 'LinearLayerTT in=%s out=%s rank=%s %s init=%s batch=%s' % (sin, sout, rank, case['dtype'], case['init'], batch)
     ctx.count('batchdims:%d' % len(batch))
+    if dn.prod(batch) >= 4096:
+        ctx.count('batch>=4096-samples')
     ctx.count('init:' + case['init'])
     key = 'layer/batch%d' % len(batch)
     layer = ctx.lib('LinearLayerTT', lambda: torchtt.nn.LinearLayerTT(sin, sout, rank, dtype=dt, initializer=case['init']))
